@@ -60,13 +60,16 @@ func matchGlob(pattern string, rels map[string]WFile, presentOnly bool) []string
 
 func hasMeta(p string) bool { return strings.ContainsAny(p, `*?[\`) }
 
-// foreignPanic: panics are C16's business; other CLI checks skip such runs.
+// foreignPanic: a command that panics has not delivered what the property
+// states for this world (the worlds of these checks are valid ones: C16 and
+// C15 own the hostile environments). It is reported under the property's own
+// "no-panic" oracle.
 func foreignPanic(e *Env, res *cmdResult) bool {
 	if res.aborted {
 		return true // counted as command-did-not-terminate by the runner
 	}
 	if len(res.panics) > 0 {
-		e.Skip("foreign-panic-in-command")
+		e.Violate(e.Prop+".no-panic", "the command panicked on a valid world: %s", res.panics[0])
 		return true
 	}
 	var pe *parseError
@@ -1340,7 +1343,18 @@ func checkGenerate(e *Env, r *cliRunner, c *CliCase) {
 			defer func() { os.Stdout = old; f.Close() }()
 		}
 	}
-	res := r.run1(c.Cmd, "gen")
+	var res *cmdResult
+	if c.EnvFault == "disk-full" {
+		size := int64(16 + 12*len(c.Cmd.Create.Archs))
+		for _, a := range c.Cmd.Create.Archs {
+			size += 12 * a.N
+		}
+		limit := int64(c.SchedSeed % uint64(size))
+		withWriteLimit(limit, func() error { res = r.run1(c.Cmd, "gen"); return nil })
+		e.Fault("F10.disk-full-while-generating")
+	} else {
+		res = r.run1(c.Cmd, "gen")
+	}
 	if foreignPanic(e, res) {
 		return
 	}
@@ -1358,7 +1372,7 @@ func checkGenerate(e *Env, r *cliRunner, c *CliCase) {
 		return
 	}
 	if res.err != nil {
-		if c.EnvFault == "textout-devfull" || c.EnvFault == "stdout-unwritable" {
+		if c.EnvFault == "textout-devfull" || c.EnvFault == "stdout-unwritable" || c.EnvFault == "disk-full" {
 			// the report could not be written: a loud failure; nothing is claimed
 			e.Probe("unwritable-report-is-a-failure")
 			return
